@@ -544,6 +544,14 @@ def run_case_here(case, outpath, scratch):
         try:
           with pool:
             sh.log("pool_entered", pids=[p.pid for p in pool.procs])
+            inner_pool = None
+            if case.get("nested_pool"):
+                # a second pool alive at the same time: its ordered imap feeds the calls of the first one (a two-stage pipeline)
+                icls = pw.WORKER_CLASS[start_method]
+                inner_pool = opp.FunctorPool([icls(sh, math.inf, None, 100 + i_, 0, 0, plan_items) for i_ in range(2)], context=ctx,
+                                             work_queue_maxsize=wq, results_queue_maxsize=rq)
+                inner_pool.__enter__()
+                sh.log("inner_pool_entered")
             if case.get("ready_first"):
                 state["phase"] = "until_all_ready"
                 pool.until_all_ready()
@@ -576,6 +584,9 @@ def run_case_here(case, outpath, scratch):
                 state["calls"].append(rec)
                 got_one = threading.Semaphore(0)
                 data = make_input(call, ci, sh) if pre_gens is None else None
+                if inner_pool is not None and pre_gens is None:
+                    stage1 = inner_pool.imap(data, 3)
+                    data = ((y_[0], y_[1], 0) for y_ in stage1)     # the first stage's result (call, idx) becomes an item again
                 if call.get("request_response") and pre_gens is None:
                     # a request/response stream: item i+1 exists only after the result of item i was received (chunk size 1)
                     items_ = list(data)
@@ -617,6 +628,9 @@ def run_case_here(case, outpath, scratch):
                 if call.get("pause_after"):
                     sh.nap(call["pause_after"])
             ready_stop.set()
+            if inner_pool is not None:
+                state["phase"] = "inner_pool_exit"
+                inner_pool.__exit__(None, None, None)
             state["phase"] = "pool_exit"
             sh.log("pool_exit_enter", pids=[p.pid for p in pool.procs])
             if body_raises:
